@@ -75,6 +75,12 @@ func (d dissecting) Analyze(item *api.OutputChannelItem, resolvedSource *api.Res
 	}
 }
 
+// maxSummarizedTopics is how many topics of a request the summary of an entry and its
+// summary query name. A request can name tens of thousands of topics; a query with a
+// clause for each of them is too long for kfl to accept (and building it one fmt.Sprintf
+// at a time was quadratic in their number).
+const maxSummarizedTopics = 10
+
 func (d dissecting) Summarize(entry *api.Entry) *api.BaseEntry {
 	status := 0
 	statusQuery := ""
@@ -93,6 +99,9 @@ func (d dissecting) Summarize(entry *api.Entry) *api.BaseEntry {
 		}
 		topics := _topics.([]interface{})
 		for i, topic := range topics {
+			if i >= maxSummarizedTopics {
+				break
+			}
 			name := topic.(map[string]interface{})["name"].(string)
 			summary += fmt.Sprintf("%s, ", name)
 			summaryQuery += fmt.Sprintf(`request.payload.topics[%d].name == "%s" and `, i, name)
@@ -111,6 +120,9 @@ func (d dissecting) Summarize(entry *api.Entry) *api.BaseEntry {
 		}
 		topics := _topics.([]interface{})
 		for i, topic := range topics {
+			if i >= maxSummarizedTopics {
+				break
+			}
 			name := topic.(map[string]interface{})["topic"].(string)
 			summary += fmt.Sprintf("%s, ", name)
 			summaryQuery += fmt.Sprintf(`request.payload.topicData[%d].topic == "%s" and `, i, name)
@@ -126,6 +138,9 @@ func (d dissecting) Summarize(entry *api.Entry) *api.BaseEntry {
 		}
 		topics := _topics.([]interface{})
 		for i, topic := range topics {
+			if i >= maxSummarizedTopics {
+				break
+			}
 			name := topic.(map[string]interface{})["topic"].(string)
 			summary += fmt.Sprintf("%s, ", name)
 			summaryQuery += fmt.Sprintf(`request.payload.topics[%d].topic == "%s" and `, i, name)
@@ -141,6 +156,9 @@ func (d dissecting) Summarize(entry *api.Entry) *api.BaseEntry {
 		}
 		topics := _topics.([]interface{})
 		for i, topic := range topics {
+			if i >= maxSummarizedTopics {
+				break
+			}
 			name := topic.(map[string]interface{})["name"].(string)
 			summary += fmt.Sprintf("%s, ", name)
 			summaryQuery += fmt.Sprintf(`request.payload.topics[%d].name == "%s" and `, i, name)
@@ -156,6 +174,9 @@ func (d dissecting) Summarize(entry *api.Entry) *api.BaseEntry {
 		}
 		topics := _topics.([]interface{})
 		for i, topic := range topics {
+			if i >= maxSummarizedTopics {
+				break
+			}
 			name := topic.(map[string]interface{})["name"].(string)
 			summary += fmt.Sprintf("%s, ", name)
 			summaryQuery += fmt.Sprintf(`request.payload.topics[%d].name == "%s" and `, i, name)
@@ -170,6 +191,9 @@ func (d dissecting) Summarize(entry *api.Entry) *api.BaseEntry {
 		}
 		topicNames := entry.Request["topicNames"].([]string)
 		for i, name := range topicNames {
+			if i >= maxSummarizedTopics {
+				break
+			}
 			summary += fmt.Sprintf("%s, ", name)
 			summaryQuery += fmt.Sprintf(`request.topicNames[%d] == "%s" and`, i, summary)
 		}
